@@ -739,7 +739,11 @@ static int search_chunk(struct mschmd_header *chm,
     start       = &chunk[chm->chunk_size - 2];
     end         = &chunk[chm->chunk_size - qr_size];
     num_entries = EndGetI16(start);
-    qr_density  = 1 + (1 << chm->density);
+    if (chm->density > 31) {
+        D(("quickref density cannot be represented"))
+        return -1;
+    }
+    qr_density  = 1 + (1U << chm->density);
     qr_entries  = (num_entries + qr_density-1) / qr_density;
 
     if (num_entries == 0) {
